@@ -140,6 +140,14 @@ def run_property(prop, pid, tier, seed, args, t0):
                 if r["verdict"] != results[k]["verdict"]:
                     results[k] = dict(r, unstable=True) if r["verdict"] != "proved" else dict(results[k], unstable=True)
     results = results or []
+    # one retry for whatever the solver left open (another seed, twice the budget, less contention): verdicts must not
+    # flip because the machine is busy
+    open_idx = [k for k, (o, r) in enumerate(zip(obs, results)) if o.kind != "vacuity" and r["verdict"] not in ("proved", "refuted")]
+    if open_idx and len(open_idx) <= 40:
+        again = solve.discharge([obs[k] for k in open_idx], budget * 2, seed + 3)
+        for k, r2 in zip(open_idx, again):
+            if r2["verdict"] in ("proved", "refuted"):
+                results[k] = dict(r2, retried=True)
     proved, refuted, unknown, vacuous = [], [], [], []
     vac_groups = {}
     demoted_spec = getattr(prop, "DEMOTED", {})
